@@ -111,6 +111,18 @@ func (r *RegistrationDB) RemoveRegistration(k Registration) {
 	delete(r.registrationMap, k)
 }
 
+// remove a Registration only if it (still) has no producers; the check and the
+// removal are one step, so a producer added in the meantime is never dropped
+func (r *RegistrationDB) RemoveRegistrationIfEmpty(k Registration) bool {
+	r.Lock()
+	defer r.Unlock()
+	if len(r.registrationMap[k]) > 0 {
+		return false
+	}
+	delete(r.registrationMap, k)
+	return true
+}
+
 func (r *RegistrationDB) needFilter(key string, subkey string) bool {
 	return key == "*" || subkey == "*"
 }
